@@ -30,32 +30,54 @@ def _pregen(ctx):
 CONFIG = dict(
     bin="c06",
     drv="drv_c06",
-    lean_modules=["MahfModel.Props.C06", "MahfModel.Props.C06Templates", "MahfModel.Props.C06Generic"],
+    lean_modules=["MahfModel.Props.C06", "MahfModel.Props.C06Templates", "MahfModel.Props.C06Generic", "MahfModel.Props.C06Runs"],
     pregen=_pregen,
     namespaces=["MahfModel.Props.C06"],
-    shrink_lists=["steps"],
+    shrink_lists=["steps", "order", "cfg", "scope", "body", "then", "else"],
     level="proof",
     timeout_quick=600,
     rule=("(1) evaluation steps: real PopulationEvaluator components inside a real Configuration::run on prepared population "
           "stacks over a call-logging table objective: every size 0..50 x {Sequential, Parallel} x rayon pools {none,1,2,4,16} "
-          "x identifiers {Global, custom}, plus seeded random step sequences (push/pop/eval, several populations, empty stack, "
+          "x identifiers {Global, custom}; sizes around powers of two and chunk boundaries (63, 64, 65, 100, 127..129, 255..257, 1000, "
+          "1025, 4097; thorough: 51..4097 at 30 boundaries) x {Sequential, Parallel} x pools {none,1,2,3,4,8,16} and random sizes up to "
+          "5000 in three-step sequences; plus seeded random step sequences (push/pop/eval, several populations, empty stack, "
           "pre-evaluated and stale members, unregistered identifier => require error); (2) loops guarded by "
           "LessThanN::evaluations(n) for n<=24 (quick) / 60 (thorough) x pass sizes {1,2,3,5,7,12}; (2b) the firefly skeleton fa::fa::<P, I> with FireflyPositionsUpdate::<I> for a NON-Global identifier I, with only I registered and with a distinct Global evaluator (own probe) registered as well: the run must succeed, every call must go to I's evaluator and the reported count must equal its probe; (3) run level: every leaf "
           "step of runs of all 21 templates x 3 parameter points x 4 instances x seeds x {seq,par}: counter delta vs. objective "
-          "calls, and reported evaluations vs. total calls at the end; (4) the generic loop functions heuristics::xx::xx::<P, I> "
+          "calls, and reported evaluations vs. total calls at the end; (3b) every template x 4 parameter points run 2..3 times through "
+          "Configuration::run on ONE state (prepared as optimize_with prepares it): every run is judged as in (3), objective calls "
+          "counted per run; (4) the generic loop functions heuristics::xx::xx::<P, I> "
           "(ga, es, de, pso, sa, ls, ils, rs, rw, iwo, fa, bh, cro; aco::aco cannot be built from outside the crate) instantiated with "
           "the NON-Global identifier I = identifier::A as complete configurations (the shipped constructor's prefix and components, "
           "with A) x 4 parameter points x 4 Sphere instances x seeds x {seq,par}: run on a state that holds ONLY Evaluator<P, A> "
           "(must complete; per-leaf and total count as in (3)) and on a state that holds ONLY Evaluator<P, Global> (must fail with an "
-          "error before anything executes: no objective call, no component started). A case is non-trivial if it contains an "
-          "evaluation step (component level), a loop (budget) or is a template run; distinct = distinct canonical input."),
-    nontrivial=lambda inp: ("(eval " in inp) or inp.startswith("(budget") or inp.startswith("(run") or inp.startswith("(fa") or inp.startswith("(generic"),
+          "error before anything executes: no objective call, no component started); (5) generated configuration TREES run through "
+          "Configuration::run, 1..3 consecutive runs ON ONE State (same configuration object again / different configurations): "
+          "evaluation steps at top level, inside Scopes of depth 1..3, inside Loop bodies (LessThanN::iterations / "
+          "LessThanN::evaluations budgets) and Branch arms (taken / not taken, with / without else), identifiers Global / custom / "
+          "identifier::B, recording components at every scope entry/exit, loop pass/exit, branch arm and evaluation step: (5a) budget "
+          "configurations run 2..3 times, (5b) random trees with everything registered (half of them without evaluation steps inside "
+          "scopes), (5c) an UNREGISTERED identifier at each of 16 positions (top, scope depth 1/2/3, loop body, loop without pass, "
+          "then/else taken/not taken, scope in loop, loop in scope, scope in a loop without pass / in a not-taken arm ...) x {the only "
+          "evaluator use, one of several} x 5 registries, alone or as the second run on a used state, (5d) random trees with one "
+          "identifier unregistered; (6) a single PopulationEvaluator<I> executed directly (Component::init/execute, no require) on "
+          "states with / without Evaluator<P, I>, with / without the counter, stacks of 0..3 populations. A case is non-trivial if it "
+          "contains an evaluation step (component level), a loop (budget) or is a template run; distinct = distinct canonical input."),
+    nontrivial=lambda inp: ("(eval " in inp) or inp.startswith("(budget") or inp.startswith("(run") or inp.startswith("(fa") or inp.startswith("(generic") or inp.startswith("(direct") or inp.startswith("(rerun"),
     trusted_base=[
         "rayon scheduler not modelled (parallel call order compared as a multiset; schedule independence is C08)",
         "u32 counter overflow not modelled (counter is a Nat)",
         "Vec/slice primitives represented by list semantics",
-        "step observer hook (cfg mahf_verif) in Block/Loop; harness classifies leaf steps by component type name"],
-    assumptions=["SplitMix64-seeded generators; objective values from a grid incl. ties, negative values, +inf, denormals (no NaN, no -0.0)",
+        "step observer hook (cfg mahf_verif) in Block/Loop; harness classifies leaf steps by component type name",
+        "configuration trees are assembled by the harness through Configuration::builder() (debug / evaluate_with / scope_ / while_ / "
+        "if_ / if_else_) with recording debug components in between; the site of a tree case (scoped / missing / missing-in-scope) is "
+        "computed from the input by the harness"],
+    assumptions=["a configuration that names an unregistered evaluator identifier ONLY inside a Scope is not refused up front "
+                 "(Scope does not forward require): recorded finding (late error / no error when the scope is never entered); what is "
+                 "demanded and checked there without exception: the step with the missing evaluator never executes",
+                 "a run whose configuration has no evaluation step outside scopes does not own the top-level counter; what "
+                 "state.evaluations() shows after such a run on a used state is the earlier run's count and is not judged",
+                 "SplitMix64-seeded generators; objective values from a grid incl. ties, negative values, +inf, denormals (no NaN, no -0.0)",
                  "run level covers the 21 shipped templates on the shared test instances (Sphere/OneMax/TSP), iteration-bounded",
                  "generic loop functions are exercised with one non-Global identifier (identifier::A) on Sphere instances; "
                  "aco::aco::<P, I> is not covered (aco::Parameters has only private fields and no constructor)"],
@@ -64,9 +86,24 @@ CONFIG = dict(
                 "evaluate_empty_stack_noop, evaluator_missing_require_fails, evals_eq_calls for every sequence of modelled steps "
                 "(induction), budget_overshoot + budget_loop_terminates, counter_exact_partial for runs without a counter-shadowing "
                 "scope, and the counterexample ils_scoped_counter_violates / counter_exact_fails for the shipped ILS shape. "
+                "Configuration trees (Model/EvalTreeC06.lean: interpreter of Configuration::run / Scope / Loop / Branch / "
+                "PopulationEvaluator with scoped Evaluations and Iterations, consecutive runs on one state): "
+                "missing_evaluator_fails_before_anything (identifier outside every scope: refused by require, nothing executed), "
+                "scope_with_missing_evaluator_untouched, only_registered_evaluators_applied / missing_evaluator_never_applied (every "
+                "execution, any tree / registry / prior state: a step whose identifier is not registered never evaluates), "
+                "direct_step_without_evaluator_errs, run_reports_its_own_calls + consecutive_runs_report_own_calls (any prior counter "
+                "value: a run without evaluation steps in scopes reports exactly its own objective calls), "
+                "budget_loop_ends_with_budget_used; counterexamples scope_defers_require_violates, "
+                "scope_never_entered_no_error_violates, scoped_eval_count_violates (+ *_oracle_rejects: the O predicate on the "
+                "model's output of the witness) for the full statements MissingFailsBeforeAnything / ReportedEqualsCalls. "
                 "The model is tied to /repo by running the real components and all 21 templates (K) and by evaluating the "
                 "property predicate on the implementation's outputs (O)."),
     level_note=("Trusted: Lean kernel; harness + driver printing; list semantics of Vec; rayon and u32 overflow not modelled. "
+                "partial: the missing-evaluator clause is proved in full for identifiers outside every Scope; for identifiers named only "
+                "inside a Scope the full statement is refuted (Scope does not forward require: error on scope entry only, none if the "
+                "scope is never entered; known finding, recorded) and what is proved is that the scope body / the step never executes. "
+                "The tree model's conditions are LessThanN over Iterations / Evaluations only; the recording debug components of the "
+                "harness are assumed not to touch the state. "
                 "partial: the run-level statement is proved for runs without a scope that shadows the counter; for ILS the full "
                 "statement is refuted (known finding, recorded; the same for the generic ils::ils with identifier A). The "
                 "'uses only the requested evaluator' obligations cover the 13 generic loop functions that can be built from outside "
